@@ -34,7 +34,8 @@ class JsonDeserializer {
 
     err = parseVariant(variant, filter, nestingLimit);
 
-    if (!err && latch_.last() != 0 && variant.isFloat()) {
+    if (!err && latch_.last() != 0 && !isSpace(char(latch_.last())) &&
+        variant.isFloat()) {
       // We don't detect trailing characters earlier, so we need to check now
       return DeserializationError::InvalidInput;
     }
@@ -572,6 +573,10 @@ class JsonDeserializer {
       move();
     }
     return DeserializationError::Ok;
+  }
+
+  static inline bool isSpace(char c) {
+    return c == ' ' || c == '\t' || c == '\r' || c == '\n';
   }
 
   static inline bool isBetween(char c, char min, char max) {
